@@ -296,3 +296,17 @@ def order(root):
 
     go(root)
     return out
+
+
+def assign_pairs(root):
+    """(target, value, statement) for every assignment under root; `a, b = x, y` gives (a, x) and (b, y)."""
+    for n in ast.walk(root):
+        if isinstance(n, ast.Assign):
+            for t in n.targets:
+                if isinstance(t, (ast.Tuple, ast.List)) and isinstance(n.value, (ast.Tuple, ast.List)) and len(t.elts) == len(n.value.elts):
+                    for a, b in zip(t.elts, n.value.elts):
+                        yield a, b, n
+                else:
+                    yield t, n.value, n
+        elif isinstance(n, ast.AnnAssign) and n.value is not None:
+            yield n.target, n.value, n
